@@ -37,17 +37,30 @@ impl PagedWriter {
         if self.dl() / 1024 >= self.p() + (if self.offset > 0 { 1int } else { 0int }) { self.dl() / 1024 } else { self.p() + 1 }
     }
     /// abstract state: the logical byte stream written so far, page granular (zero filled)
-    #[verifier::opaque]
-    pub open spec fn stream(&self) -> Seq<u8> {
-        Seq::new((1020 * self.npages()) as nat, |i: int|
-            if i / 1020 == self.p() { self.page_buffer@[i % 1020] } else { self.writer.data@[1024 * (i / 1020) + i % 1020] })
-    }
+    pub open spec fn stream(&self) -> Seq<u8> { stream_of(self.writer.data@, self.writer.pos as int, self.offset as int, self.page_buffer@) }
     /// logical cursor
     pub open spec fn cursor(&self) -> int { 1020 * self.p() + self.offset }
+    /// C15: no device write so far has carried a non-zero byte for device bytes 32..40 (the header's XML-length field)
+    pub open spec fn hist_clean(&self) -> bool { self.writer.dirty@ == 0 }
+    /// C15: the history is clean, the field is zero on the device, and the page buffer cannot put anything non-zero there either
+    pub open spec fn quiet(&self) -> bool { quiet_of(self.writer.dirty@, self.writer.data@, self.writer.pos as int, self.page_buffer@) }
+    /// C15 frame of an operation that writes `bytes` at logical cursor `c`: as long as it carries nothing non-zero for bytes 32..40
+    /// the history stays clean whatever the outcome, and a successful operation leaves the writer quiet
+    pub open spec fn c15_keeps(o: &Self, n: &Self, ok: bool, c: int, bytes: Seq<u8>) -> bool {
+        (o.quiet() && !hdr_touch(c, bytes)) ==> (if ok { n.quiet() } else { n.hist_clean() })
+    }
+    /// C15 frame of any operation that only writes at logical offsets >= 40 (everything except the file header)
+    pub open spec fn c15_far(o: &Self, n: &Self, ok: bool) -> bool {
+        (o.quiet() && o.cursor() >= 40) ==> (if ok { n.quiet() } else { n.hist_clean() })
+    }
+    /// same for operations that write nothing new (seek, flush, size, position)
+    pub open spec fn c15_same(o: &Self, n: &Self, ok: bool) -> bool {
+        o.quiet() ==> (if ok { n.quiet() } else { n.hist_clean() })
+    }
     /// C16: an operation that reports success has seen no device error
     pub open spec fn no_new_fault(&self, o: &Self) -> bool { self.writer.failed@ == o.writer.failed@ }
 
-//@fn src/paged_writer.rs PagedWriter new serves=C11,C16,C02 ret=r
+//@fn src/paged_writer.rs PagedWriter new serves=C11,C16,C02,C15 ret=r
 //@rw mut writer: T ==> mut writer: Dev
 //@rw \[0_u8; PAGE_SIZE as usize\] ==> [0_u8; 1024]
 //@rw #\[cfg\(not\(feature = "crc32c"\)\)\] ==> <empty>
@@ -55,17 +68,19 @@ impl PagedWriter {
         ensures match r {
             // only an empty device is accepted; the logical stream starts empty
             Ok(w) => w.wf() && writer.data@.len() == 0 && w.writer.data@ == writer.data@ && w.stream() =~= Seq::<u8>::empty() && w.cursor() == 0
-                && w.writer.failed@ == writer.failed@,
+                && w.writer.failed@ == writer.failed@
+                /*[C15]*/ && w.writer.dirty@ == writer.dirty@ && w.writer.snap@ == writer.snap@ && (writer.dirty@ == 0 ==> w.quiet()),
             Err(_) => true },
 //@body_start
-        proof { reveal(PagedWriter::stream); reveal(phys); reveal(unphys); }
+        proof { reveal(stream_of); reveal(phys); reveal(unphys); reveal(quiet_of); }
 //@endfn
 
-//@fn src/paged_writer.rs PagedWriter read_current_page serves=C11,C16 ret=r
+//@fn src/paged_writer.rs PagedWriter read_current_page serves=C11,C16,C15 ret=r
 //@rw std::io::Result<\(\)> ==> std::result::Result<(), IoError>
 //@sig
         requires old(self).dl() % 1024 == 0, old(self).writer.pos % 1024 == 0, old(self).writer.pos <= old(self).dl(),
         ensures final(self).writer.data@ == old(self).writer.data@, final(self).offset == old(self).offset,
+            final(self).writer.dirty@ == old(self).writer.dirty@, final(self).writer.snap@ == old(self).writer.snap@,
             match r {
             // for every short-read schedule of the device: the device page at pos, or zeros if absent
             Ok(_) => final(self).no_new_fault(old(self))
@@ -85,6 +100,7 @@ impl PagedWriter {
             invariant
                 self.writer.data@ == data0, data0 == old(self).writer.data@, data0.len() % 1024 == 0, pos0 % 1024 == 0, pos0 <= data0.len(),
                 self.offset == old(self).offset, self.writer.failed@ == f0,
+                self.writer.dirty@ == old(self).writer.dirty@, self.writer.snap@ == old(self).writer.snap@,
                 done.len() + unread@.len() == 1024,
                 self.writer.pos == pos0 + done.len(),
                 done.len() > 0 ==> pos0 < data0.len(),
@@ -109,7 +125,7 @@ impl PagedWriter {
         }
 //@endfn
 
-//@fn src/paged_writer.rs PagedWriter write trait=Write serves=C11,C16,C02 ret=r
+//@fn src/paged_writer.rs PagedWriter write trait=Write serves=C11,C16,C02,C15 ret=r
 //@rw std::io::Result<usize> ==> std::result::Result<usize, IoError>
 //@rw #\[cfg\(not\(feature = "crc32c"\)\)\] ==> <empty>
 //@rw #\[cfg\(feature = "crc32c"\)\]\s*let crc = [^;]*; ==> <empty>
@@ -130,8 +146,16 @@ impl PagedWriter {
                 // frame over the whole view: written range = buf, everything else unchanged, new page zero
                 && (forall|i: int| 0 <= i < final(self).stream().len() ==> #[trigger] final(self).stream()[i] ==
                         (if old(self).cursor() <= i < old(self).cursor() + n { buf@[i - old(self).cursor()] }
-                         else if i < old(self).stream().len() { old(self).stream()[i] } else { 0u8 })),
-            Err(_) => final(self).writer.failed@ },
+                         else if i < old(self).stream().len() { old(self).stream()[i] } else { 0u8 }))
+                // the same, in the append algebra of the layers above
+                && appended(*old(self), *final(self), buf@.subrange(0, n as int))
+                // no device operation at all unless the page fills up
+                && (old(self).offset + n < 1020 ==> final(self).writer == old(self).writer),
+            // an error can only come from the device, and the device is only touched when the page fills up
+            Err(_) => final(self).writer.failed@ && old(self).offset + buf@.len() >= 1020 },
+            /*[C15]*/ PagedWriter::c15_keeps(old(self), final(self), r is Ok, old(self).cursor(), buf@),
+//@body_start
+        proof { lemma_aligned_step(old(self).writer.pos as int, old(self).dl()); }
 //@stmt 0 after self\.offset \+= writeable_bytes
         let ghost mid = *self;
         proof {
@@ -140,46 +164,172 @@ impl PagedWriter {
                 (if old(self).offset <= i < old(self).offset + writeable_bytes { buf@[i - old(self).offset] } else { old(self).page_buffer@[i] }) by { }
         }
 //@call write_all 0 before
-            let ghost d0 = self.writer.data@;
             let ghost pb = self.page_buffer@;
-//@call read_current_page 0 before
-            let ghost d1 = self.writer.data@;
-//@call seek 0 after
             proof {
-                let p = old(self).p();
                 be4_len(crc);
                 assert(pb.subrange(0, 1020) =~= mid.page_buffer@.subrange(0, 1020));
                 assert(pb.subrange(1020, 1024) =~= be4(crc));
-                assert(sealed_page(pb));
-                assert(d1.len() == (if old(self).page_exists() { d0.len() } else { d0.len() + 1024 }));
-                assert forall|k: int| 0 <= k < d1.len() / 1024 implies sealed_page(#[trigger] page(d1, k)) by {
-                    if k == p { assert(page(d1, k) =~= pb); } else { assert(page(d1, k) =~= page(d0, k)); }
-                }
-                assert(self.p() == p + 1);
-                assert forall|i: int| 0 <= i < self.stream().len() implies #[trigger] self.stream()[i] ==
-                        (if old(self).cursor() <= i < old(self).cursor() + writeable_bytes { buf@[i - old(self).cursor()] }
-                         else if i < old(self).stream().len() { old(self).stream()[i] } else { 0u8 }) by {
-                    let k = i / 1020;
-                    if k == p {
-                        assert(d1[1024 * k + i % 1020] == pb[i % 1020]);
-                    } else if k == p + 1 {
-                    } else {
-                        assert(d1[1024 * k + i % 1020] == d0[1024 * k + i % 1020]);
-                    }
-                }
+                // C15: the page that goes to the device carries nothing for bytes 32..40 unless the caller's bytes do
+                if old(self).quiet() && !hdr_touch(old(self).cursor(), buf@) { PagedWriter::lemma_c15_page(*old(self), buf@, writeable_bytes as int, pb); }
+            }
+//@call seek 0 after
+            proof {
+                PagedWriter::lemma_write_full(*old(self), *self, buf@, writeable_bytes as int, pb);
+                if old(self).quiet() && !hdr_touch(old(self).cursor(), buf@) { PagedWriter::lemma_c15_after_full(*old(self), *self, pb); }
             }
 //@tail
         proof {
             if mid.offset != 1020 {
-                assert forall|i: int| 0 <= i < self.stream().len() implies #[trigger] self.stream()[i] ==
-                        (if old(self).cursor() <= i < old(self).cursor() + writeable_bytes { buf@[i - old(self).cursor()] }
-                         else if i < old(self).stream().len() { old(self).stream()[i] } else { 0u8 }) by { }
+                PagedWriter::lemma_write_small(*old(self), *self, buf@, writeable_bytes as int);
+                if old(self).quiet() && !hdr_touch(old(self).cursor(), buf@) { PagedWriter::lemma_c15_small(*old(self), *self, buf@, writeable_bytes as int); }
             }
         }
-//@body_start
-        proof { reveal(PagedWriter::stream); reveal(phys); reveal(unphys); }
 //@endfn
 
+    /// `write`, case "the page does not fill up": only the page buffer changes
+    pub proof fn lemma_write_small(o: PagedWriter, n: PagedWriter, buf: Seq<u8>, wb: int)
+        requires o.wf(), 0 <= wb, o.offset + wb < 1020, n.writer == o.writer, n.offset == o.offset + wb,
+            forall|i: int| 0 <= i < 1020 ==> #[trigger] n.page_buffer@[i] == (if o.offset <= i < o.offset + wb { buf[i - o.offset] } else { o.page_buffer@[i] }),
+        ensures n.wf(), n.cursor() == o.cursor() + wb, n.stream().len() >= o.stream().len(),
+            o.cursor() + wb <= o.stream().len() ==> n.stream().len() == o.stream().len(),
+            forall|i: int| 0 <= i < n.stream().len() ==> #[trigger] n.stream()[i] ==
+                (if o.cursor() <= i < o.cursor() + wb { buf[i - o.cursor()] } else if i < o.stream().len() { o.stream()[i] } else { 0u8 }),
+            wb <= buf.len() ==> appended(o, n, buf.subrange(0, wb)),
+    {
+        reveal(stream_of); reveal(app_seq);
+    }
+    /// `write`, case "the page fills up": the sealed page `pb` goes to the device at the page position, the next page is loaded
+    pub proof fn lemma_write_full(o: PagedWriter, n: PagedWriter, buf: Seq<u8>, wb: int, pb: Seq<u8>)
+        requires o.wf(), 0 <= wb, o.offset + wb == 1020, pb.len() == 1024,
+            forall|i: int| 0 <= i < 1020 ==> #[trigger] pb[i] == (if o.offset <= i { buf[i - o.offset] } else { o.page_buffer@[i] }),
+            pb.subrange(1020, 1024) =~= be4(crc32c(pb.subrange(0, 1020))),
+            // device after write_all(pb) at the page position
+            n.writer.data@ =~= o.writer.data@.subrange(0, o.writer.pos as int) + pb
+                + (if o.writer.pos + 1024 <= o.writer.data@.len() { o.writer.data@.subrange(o.writer.pos + 1024, o.writer.data@.len() as int) } else { Seq::<u8>::empty() }),
+            n.writer.data@.len() <= 0x7fff_ffff_ffff_ffff,
+            n.writer.pos == o.writer.pos + 1024, n.offset == 0,
+            // read_current_page: the next device page, or zeros when there is none
+            n.writer.pos < n.writer.data@.len() ==> n.page_buffer@ =~= n.writer.data@.subrange(n.writer.pos as int, n.writer.pos + 1024),
+            n.writer.pos >= n.writer.data@.len() ==> n.page_buffer@ =~= Seq::new(1024, |i: int| 0u8),
+        ensures n.wf(), n.cursor() == o.cursor() + wb, n.stream().len() >= o.stream().len(),
+            n.dl() <= o.dl() + 1024, n.dl() >= o.dl(),
+            o.cursor() + wb <= o.stream().len() ==> n.stream().len() == o.stream().len(),
+            forall|i: int| 0 <= i < n.stream().len() ==> #[trigger] n.stream()[i] ==
+                (if o.cursor() <= i < o.cursor() + wb { buf[i - o.cursor()] } else if i < o.stream().len() { o.stream()[i] } else { 0u8 }),
+            wb <= buf.len() ==> appended(o, n, buf.subrange(0, wb)),
+    {
+        reveal(stream_of); reveal(app_seq);
+        let p = o.p(); let d0 = o.writer.data@; let d1 = n.writer.data@;
+        assert(sealed_page(pb));
+        assert(d1.len() == (if o.page_exists() { d0.len() } else { d0.len() + 1024 }));
+        assert forall|k: int| 0 <= k < d1.len() / 1024 implies sealed_page(#[trigger] page(d1, k)) by {
+            if k == p { assert(page(d1, k) =~= pb); } else { assert(page(d1, k) =~= page(d0, k)); }
+        }
+        assert(n.p() == p + 1);
+        assert forall|i: int| 0 <= i < n.stream().len() implies #[trigger] n.stream()[i] ==
+                (if o.cursor() <= i < o.cursor() + wb { buf[i - o.cursor()] } else if i < o.stream().len() { o.stream()[i] } else { 0u8 }) by {
+            let k = i / 1020;
+            if k == p {
+                assert(d1[1024 * k + i % 1020] == pb[i % 1020]);
+            } else if k == p + 1 {
+            } else {
+                assert(d1[1024 * k + i % 1020] == d0[1024 * k + i % 1020]);
+            }
+        }
+    }
+
+    /// C15, page about to be written: it carries nothing non-zero for device bytes 32..40
+    pub proof fn lemma_c15_page(o: PagedWriter, buf: Seq<u8>, wb: int, pb: Seq<u8>)
+        requires o.wf(), o.quiet(), !hdr_touch(o.cursor(), buf), 0 <= wb <= buf.len(), o.offset + wb == 1020, pb.len() == 1024,
+            forall|i: int| 0 <= i < 1020 ==> #[trigger] pb[i] == (if o.offset <= i { buf[i - o.offset] } else { o.page_buffer@[i] }),
+        ensures !hdr_touch(o.writer.pos as int, pb), o.writer.dirty@ == 0
+    { reveal(quiet_of); }
+    pub proof fn lemma_c15_after_full(o: PagedWriter, n: PagedWriter, pb: Seq<u8>)
+        requires o.wf(), o.quiet(), !hdr_touch(o.writer.pos as int, pb), pb.len() == 1024, n.writer.dirty@ == 0,
+            n.writer.data@ =~= o.writer.data@.subrange(0, o.writer.pos as int) + pb
+                + (if o.writer.pos + 1024 <= o.writer.data@.len() { o.writer.data@.subrange(o.writer.pos + 1024, o.writer.data@.len() as int) } else { Seq::<u8>::empty() }),
+            n.writer.pos == o.writer.pos + 1024,
+        ensures n.quiet()
+    {
+        reveal(quiet_of);
+        let d0 = o.writer.data@; let d1 = n.writer.data@; let pos = o.writer.pos as int;
+        assert forall|i: int| 32 <= i < 40 && i < d1.len() implies d1[i] == 0u8 by {
+            if pos == 0 { assert(d1[i] == pb[i]); assert(wr_byte(pos, pb, i) == pb[i]); } else { assert(pos >= 1024); assert(d1[i] == d0[i]); }
+        }
+    }
+    pub proof fn lemma_c15_small(o: PagedWriter, n: PagedWriter, buf: Seq<u8>, wb: int)
+        requires o.wf(), o.quiet(), !hdr_touch(o.cursor(), buf), 0 <= wb <= buf.len(), o.offset + wb < 1020, n.writer == o.writer,
+            forall|i: int| 0 <= i < 1020 ==> #[trigger] n.page_buffer@[i] == (if o.offset <= i < o.offset + wb { buf[i - o.offset] } else { o.page_buffer@[i] }),
+        ensures n.quiet(), n.hist_clean()
+    { reveal(quiet_of); }
+
+    pub proof fn lemma_c15_flush_page(o: PagedWriter, pb: Seq<u8>)
+        requires o.wf(), o.quiet(), pb.len() == 1024, forall|i: int| 0 <= i < 1020 ==> #[trigger] pb[i] == o.page_buffer@[i],
+        ensures !hdr_touch(o.writer.pos as int, pb), o.writer.dirty@ == 0
+    { reveal(quiet_of); }
+    pub proof fn lemma_c15_after_flush(o: PagedWriter, n: PagedWriter)
+        requires o.wf(), o.quiet(), n.writer.dirty@ == 0, n.writer.pos == o.writer.pos,
+            forall|i: int| 0 <= i < 1020 ==> #[trigger] n.page_buffer@[i] == o.page_buffer@[i],
+            n.writer.data@ =~= o.writer.data@.subrange(0, o.writer.pos as int) + n.page_buffer@
+                + (if o.writer.pos + 1024 <= o.writer.data@.len() { o.writer.data@.subrange(o.writer.pos + 1024, o.writer.data@.len() as int) } else { Seq::<u8>::empty() }),
+        ensures n.quiet()
+    {
+        reveal(quiet_of);
+        let d0 = o.writer.data@; let d1 = n.writer.data@; let pos = o.writer.pos as int;
+        assert forall|i: int| 32 <= i < 40 && i < d1.len() implies d1[i] == 0u8 by {
+            if pos == 0 { assert(d1[i] == n.page_buffer@[i]); } else { assert(pos >= 1024); assert(d1[i] == d0[i]); }
+        }
+    }
+    /// an operation that touches neither device data nor the page buffer keeps the writer quiet
+    pub proof fn lemma_c15_unchanged(o: PagedWriter, n: PagedWriter)
+        requires o.quiet(), n.writer.dirty@ == o.writer.dirty@, n.writer.data@ == o.writer.data@, n.page_buffer@ == o.page_buffer@, n.writer.pos == o.writer.pos,
+        ensures n.quiet()
+    { reveal(quiet_of); }
+
+    /// after a seek the page buffer is a device page (or zeros): still nothing for bytes 32..40
+    pub proof fn lemma_c15_after_seek(fl: PagedWriter, n: PagedWriter)
+        requires fl.quiet(), n.writer.dirty@ == 0, n.writer.data@ == fl.writer.data@, n.writer.pos % 1024 == 0, n.writer.data@.len() % 1024 == 0,
+            n.writer.pos < n.writer.data@.len() ==> n.page_buffer@ =~= n.writer.data@.subrange(n.writer.pos as int, n.writer.pos + 1024),
+            n.writer.pos >= n.writer.data@.len() ==> n.page_buffer@ =~= Seq::new(1024, |i: int| 0u8),
+        ensures n.quiet()
+    { reveal(quiet_of); }
+    /// `flush` with a non-empty page buffer: the sealed page goes to the device at the page position
+    pub proof fn lemma_flush(o: PagedWriter, n: PagedWriter)
+        requires o.wf(), o.offset > 0, n.offset == o.offset, n.writer.pos == o.writer.pos, 
+            n.page_buffer@.subrange(0, 1020) =~= o.page_buffer@.subrange(0, 1020),
+            n.page_buffer@.subrange(1020, 1024) =~= be4(crc32c(n.page_buffer@.subrange(0, 1020))),
+            n.writer.data@ =~= o.writer.data@.subrange(0, o.writer.pos as int) + n.page_buffer@
+                + (if o.writer.pos + 1024 <= o.writer.data@.len() { o.writer.data@.subrange(o.writer.pos + 1024, o.writer.data@.len() as int) } else { Seq::<u8>::empty() }),
+            n.writer.data@.len() <= 0x7fff_ffff_ffff_ffff,
+        ensures n.wf(), n.stream() =~= o.stream(), n.cursor() == o.cursor(), n.npages() == o.npages(),
+            n.dl() == 1024 * o.npages(), n.dl() <= o.dl() + 1024, n.dl() >= o.dl(),
+            forall|i: int| 0 <= i < 1020 * o.npages() ==> n.writer.data@[phys(i)] == #[trigger] o.stream()[i],
+            forall|i: int| 0 <= i < o.dl() && !(o.writer.pos <= i < o.writer.pos + 1024) ==> n.writer.data@[i] == o.writer.data@[i],
+    {
+        reveal(stream_of); reveal(phys); reveal(unphys);
+        let d0 = o.writer.data@; let d1 = n.writer.data@; let pb = n.page_buffer@; let p = o.p();
+        assert(sealed_page(pb));
+        assert(d1.len() == (if o.page_exists() { d0.len() } else { d0.len() + 1024 }));
+        assert forall|k: int| 0 <= k < d1.len() / 1024 implies sealed_page(#[trigger] page(d1, k)) by {
+            if k == p { assert(page(d1, k) =~= pb); } else { assert(page(d1, k) =~= page(d0, k)); }
+        }
+        assert(n.page_exists());
+        assert forall|i: int| 0 <= i < 1020 implies n.page_buffer@[i] == d1[n.writer.pos + i] by { }
+        assert forall|i: int| 0 <= i < 1020 implies n.page_buffer@[i] == o.page_buffer@[i] by {
+            assert(n.page_buffer@.subrange(0, 1020)[i] == o.page_buffer@.subrange(0, 1020)[i]);
+        }
+        assert(n.npages() == o.npages());
+        assert forall|i: int| 0 <= i < 1020 * o.npages() implies
+            d1[1024 * (i / 1020) + i % 1020] == #[trigger] o.stream()[i] by {
+            if i / 1020 == p { } else { assert(d1[1024 * (i / 1020) + i % 1020] == d0[1024 * (i / 1020) + i % 1020]); }
+        }
+    }
+    /// `flush` with an empty page buffer writes nothing: the device already is the stream
+    pub proof fn lemma_flush_empty(o: PagedWriter)
+        requires o.wf(), o.offset == 0,
+        ensures o.dl() == 1024 * o.npages(),
+            forall|i: int| 0 <= i < 1020 * o.npages() ==> o.writer.data@[phys(i)] == #[trigger] o.stream()[i],
+    { reveal(stream_of); reveal(phys); reveal(unphys); }
     /// std::io::Write::write_all (provided method of the trait), re-stated over the extracted `write` and
     /// verified against its contract: loops until the buffer is consumed, Ok(0) is an error
     fn write_all(&mut self, buf: &[u8]) -> (r: std::result::Result<(), IoError>)
@@ -195,35 +345,50 @@ impl PagedWriter {
                 && final(self).stream().len() >= old(self).stream().len()
                 && (forall|i: int| 0 <= i < final(self).stream().len() ==> #[trigger] final(self).stream()[i] ==
                         (if old(self).cursor() <= i < old(self).cursor() + buf@.len() { buf@[i - old(self).cursor()] }
-                         else if i < old(self).stream().len() { old(self).stream()[i] } else { 0u8 })),
-            Err(_) => true },
+                         else if i < old(self).stream().len() { old(self).stream()[i] } else { 0u8 }))
+                // no device operation at all unless a page fills up
+                && (old(self).offset + buf@.len() < 1020 ==> final(self).writer == old(self).writer),
+            Err(_) => old(self).offset + buf@.len() >= 1020 },
+            /*[C15]*/ PagedWriter::c15_keeps(old(self), final(self), r is Ok, old(self).cursor(), buf@),
     {
-        proof { reveal(PagedWriter::stream); reveal(phys); reveal(unphys); }
+        let ghost o = *self;
+        proof { lemma_appended_refl(o); lemma_cursor_bound(o); assert(buf@.subrange(0, 0) =~= Seq::<u8>::empty()); }
         let mut done: usize = 0;
+        let ghost mut k: int = 0;
         while done < buf.len()
             invariant
-                done <= buf@.len(), self.wf(),
+                done <= buf@.len(), self.wf(), o == *old(self), o.cursor() >= 0,
                 self.no_new_fault(old(self)),
-                self.dl() <= old(self).dl() + 1024 * ((old(self).offset + done) / 1020), self.dl() >= old(self).dl(),
-                self.offset == (old(self).offset + done) % 1020,
-                old(self).cursor() + done <= old(self).stream().len() ==> self.stream().len() == old(self).stream().len(),
-                self.cursor() == old(self).cursor() + done,
-                self.stream().len() >= old(self).stream().len(),
-                forall|i: int| 0 <= i < self.stream().len() ==> #[trigger] self.stream()[i] ==
-                        (if old(self).cursor() <= i < old(self).cursor() + done { buf@[i - old(self).cursor()] }
-                         else if i < old(self).stream().len() { old(self).stream()[i] } else { 0u8 }),
+                // k = number of page boundaries crossed so far (kept linear: no div/mod inside the loop)
+                k >= 0, old(self).offset + done == 1020 * k + self.offset,
+                self.dl() <= old(self).dl() + 1024 * k, self.dl() >= old(self).dl(),
+                appended(o, *self, buf@.subrange(0, done as int)),
+                old(self).offset + buf@.len() < 1020 ==> self.writer == old(self).writer,
+                (o.quiet() && !hdr_touch(o.cursor(), buf@)) ==> self.quiet(),
             decreases buf@.len() - done
         {
-            proof { reveal(PagedWriter::stream); reveal(phys); reveal(unphys); }
+            let ghost before = *self;
+            proof { if o.quiet() && !hdr_touch(o.cursor(), buf@) { lemma_hdr_touch_suffix(o.cursor(), buf@, done as int); } }
             let n = self.write(vstd::slice::slice_subrange(buf, done, buf.len()))?;
             if n == 0 { return Err(IoError::new(ErrorKind::WriteZero, "")); }
+            proof {
+                let rest = buf@.subrange(done as int, buf@.len() as int);
+                assert(rest.subrange(0, n as int) =~= buf@.subrange(done as int, done + n));
+                lemma_appended_trans(o, before, *self, buf@.subrange(0, done as int), buf@.subrange(done as int, done + n));
+                assert(buf@.subrange(0, done as int) + buf@.subrange(done as int, done + n) =~= buf@.subrange(0, done + n));
+                if before.offset + n == 1020 { k = k + 1; }
+            }
             done = done + n;
         }
-        proof { reveal(app_seq); reveal(PagedWriter::stream); }
+        proof {
+            assert(buf@.subrange(0, buf@.len() as int) =~= buf@);
+            lemma_appended_content(o, *self, buf@);
+            vstd::arithmetic::div_mod::lemma_fundamental_div_mod_converse(old(self).offset + buf@.len(), 1020, k, self.offset as int);
+        }
         Ok(())
     }
 
-//@fn src/paged_writer.rs PagedWriter physical_seek serves=C11,C16,C02,C06 ret=r
+//@fn src/paged_writer.rs PagedWriter physical_seek serves=C11,C16,C02,C06,C15 ret=r
 //@sig
         requires old(self).wf(),
         ensures match r {
@@ -231,12 +396,18 @@ impl PagedWriter {
             Ok(_) => final(self).wf() && final(self).no_new_fault(old(self)) && pos <= 1024 * old(self).npages() && pos % 1024 < 1020
                 && final(self).stream() =~= old(self).stream()
                 && final(self).dl() <= old(self).dl() + 1024 && final(self).dl() >= old(self).dl()
-                && final(self).cursor() == unphys(pos as int),
+                && final(self).cursor() == unphys(pos as int)
+                // a seek flushes first: afterwards the device holds the whole logical stream
+                && final(self).dl() == 1024 * old(self).npages()
+                && (forall|i: int| 0 <= i < 1020 * old(self).npages() ==> final(self).writer.data@[phys(i)] == #[trigger] old(self).stream()[i]),
             Err(e) => final(self).writer.failed@ || pos > 1024 * old(self).npages() || pos % 1024 >= 1020 },
+            /*[C15]*/ PagedWriter::c15_same(old(self), final(self), r is Ok),
 //@call flush 0 after
         let ghost fl = *self;
+        proof { if fl.quiet() { lemma_quiet_clean(fl); } }
 //@tail
         proof {
+            if old(self).quiet() { PagedWriter::lemma_c15_after_seek(fl, *self); }
             let d = self.writer.data@;
             assert(d == fl.writer.data@);
             assert forall|i: int| 0 <= i < self.stream().len() implies self.stream()[i] == old(self).stream()[i] by {
@@ -244,10 +415,10 @@ impl PagedWriter {
             }
         }
 //@body_start
-        proof { reveal(PagedWriter::stream); reveal(phys); reveal(unphys); }
+        proof { lemma_aligned_step(old(self).writer.pos as int, old(self).dl()); reveal(stream_of); reveal(phys); reveal(unphys); if old(self).quiet() { lemma_quiet_clean(*old(self)); } }
 //@endfn
 
-//@fn src/paged_writer.rs PagedWriter physical_size serves=C11,C16,C02 ret=r
+//@fn src/paged_writer.rs PagedWriter physical_size serves=C11,C16,C02,C15 ret=r
 //@sig
         requires old(self).wf(),
         ensures match r {
@@ -257,11 +428,14 @@ impl PagedWriter {
                 && final(self).dl() <= old(self).dl() + 1024 && final(self).dl() >= old(self).dl()
                 && (forall|i: int| 0 <= i < 1020 * old(self).npages() ==> final(self).writer.data@[phys(i)] == #[trigger] old(self).stream()[i]),
             Err(_) => final(self).writer.failed@ },
+            /*[C15]*/ PagedWriter::c15_same(old(self), final(self), r is Ok),
+//@call flush 0 after
+        proof { if self.quiet() { lemma_quiet_clean(*self); } }
 //@body_start
-        proof { reveal(PagedWriter::stream); reveal(phys); reveal(unphys); }
+        proof { lemma_aligned_step(old(self).writer.pos as int, old(self).dl()); reveal(stream_of); reveal(phys); reveal(unphys); if old(self).quiet() { lemma_quiet_clean(*old(self)); } }
 //@endfn
 
-//@fn src/paged_writer.rs PagedWriter physical_position serves=C11,C16,C02,C06,C01 ret=r
+//@fn src/paged_writer.rs PagedWriter physical_position serves=C11,C16,C02,C06,C01,C15 ret=r
 //@sig
         requires old(self).wf(),
         ensures match r {
@@ -269,15 +443,16 @@ impl PagedWriter {
             Ok(p) => final(self).wf() && final(self).no_new_fault(old(self)) && final(self).stream() == old(self).stream() && final(self).cursor() == old(self).cursor()
                     && p == phys(old(self).cursor()) && p % 1024 < 1020 && final(self).dl() == old(self).dl(),
             Err(_) => final(self).writer.failed@ },
+            /*[C15]*/ PagedWriter::c15_same(old(self), final(self), r is Ok),
 //@body_start
-        proof { reveal(PagedWriter::stream); reveal(phys); reveal(unphys); }
+        proof { reveal(stream_of); reveal(phys); reveal(unphys); if old(self).quiet() { lemma_quiet_clean(*old(self)); } }
 //@endfn
 
-//@fn src/paged_writer.rs PagedWriter align serves=C11,C16,C02 ret=r
+//@fn src/paged_writer.rs PagedWriter align serves=C11,C16,C02,C15 ret=r
 //@rw &zeros\[mod_offset\.\.\] ==> vstd::slice::slice_subrange(&zeros, mod_offset, 4)
 //@tail
         proof {
-            reveal(app_seq); reveal(PagedWriter::stream);
+            reveal(app_seq); reveal(stream_of);
             if mod_offset != 0 {
                 assert(zeros@.subrange(mod_offset as int, 4) =~= Seq::new((4 - mod_offset) as nat, |i: int| 0u8));
             } else {
@@ -295,9 +470,10 @@ impl PagedWriter {
                 && appended(*old(self), *final(self), Seq::new((final(self).cursor() - old(self).cursor()) as nat, |i: int| 0u8))
                 && final(self).dl() <= old(self).dl() + 1024 && final(self).dl() >= old(self).dl(),
             Err(_) => true },
+            /*[C15]*/ PagedWriter::c15_same(old(self), final(self), r is Ok),
 //@endfn
 
-//@fn src/paged_writer.rs PagedWriter flush trait=Write serves=C11,C16,C02 ret=r
+//@fn src/paged_writer.rs PagedWriter flush trait=Write serves=C11,C16,C02,C15 ret=r
 //@rw std::io::Result<\(\)> ==> std::result::Result<(), IoError>
 //@rw #\[cfg\(not\(feature = "crc32c"\)\)\] ==> <empty>
 //@rw #\[cfg\(feature = "crc32c"\)\]\s*let crc = [^;]*; ==> <empty>
@@ -309,33 +485,38 @@ impl PagedWriter {
                 // C11: after a flush the device payload IS the logical stream, whole pages, all sealed
                 && final(self).dl() == 1024 * old(self).npages()
                 && final(self).dl() <= old(self).dl() + 1024 && final(self).dl() >= old(self).dl()
-                && (forall|i: int| 0 <= i < 1020 * old(self).npages() ==> final(self).writer.data@[phys(i)] == #[trigger] old(self).stream()[i]),
+                && (forall|i: int| 0 <= i < 1020 * old(self).npages() ==> final(self).writer.data@[phys(i)] == #[trigger] old(self).stream()[i])
+                // device frame: only the current page is (re)written
+                && final(self).writer.pos == old(self).writer.pos
+                && (forall|i: int| 0 <= i < old(self).dl() && !(old(self).writer.pos <= i < old(self).writer.pos + 1024) ==> final(self).writer.data@[i] == old(self).writer.data@[i]),
             Err(_) => final(self).writer.failed@ },
+            /*[C15]*/ PagedWriter::c15_same(old(self), final(self), r is Ok),
+            // C15: a flush is at most ONE device write; if it is the first to carry the XML-length field, `snap` is the image before it
+            /*[C15]*/ final(self).writer.dirty@ <= old(self).writer.dirty@ + 1,
+            /*[C15]*/ (old(self).writer.dirty@ == 0 && final(self).writer.dirty@ == 1) ==> final(self).writer.snap@ == old(self).writer.data@,
 //@call write_all 0 before
-            let ghost d0 = self.writer.data@;
+            proof {
+                be4_len(crc);
+                assert(self.page_buffer@.subrange(0, 1020) =~= old(self).page_buffer@.subrange(0, 1020));
+                assert(self.page_buffer@.subrange(1020, 1024) =~= be4(crc));
+                if old(self).quiet() { PagedWriter::lemma_c15_flush_page(*old(self), self.page_buffer@); }
+            }
 //@call seek 0 after
             proof {
-                let d1 = self.writer.data@;
-                let pb = self.page_buffer@;
-                let p = old(self).p();
-                be4_len(crc);
-                assert(pb.subrange(0, 1020) =~= old(self).page_buffer@.subrange(0, 1020));
-                assert(pb.subrange(1020, 1024) =~= be4(crc));
-                assert(sealed_page(pb));
-                assert(d1.len() == (if old(self).page_exists() { d0.len() } else { d0.len() + 1024 }));
-                assert forall|k: int| 0 <= k < d1.len() / 1024 implies sealed_page(#[trigger] page(d1, k)) by {
-                    if k == p { assert(page(d1, k) =~= pb); } else { assert(page(d1, k) =~= page(d0, k)); }
-                }
-                assert(self.page_exists());
-                assert forall|i: int| 0 <= i < 1020 implies self.page_buffer@[i] == d1[self.writer.pos + i] by { }
-                assert(self.npages() == old(self).npages());
-                assert forall|i: int| 0 <= i < 1020 * old(self).npages() implies
-                    d1[1024 * (i / 1020) + i % 1020] == #[trigger] old(self).stream()[i] by {
-                    if i / 1020 == p { } else { assert(d1[1024 * (i / 1020) + i % 1020] == d0[1024 * (i / 1020) + i % 1020]); }
-                }
+                PagedWriter::lemma_flush(*old(self), *self);
+                if old(self).quiet() { PagedWriter::lemma_c15_after_flush(*old(self), *self); }
             }
 //@body_start
-        proof { reveal(PagedWriter::stream); reveal(phys); reveal(unphys); }
+        proof { lemma_aligned_step(old(self).writer.pos as int, old(self).dl()); if old(self).quiet() { lemma_quiet_clean(*old(self)); } if old(self).offset == 0 { PagedWriter::lemma_flush_empty(*old(self)); } }
+//@endfn
+
+    // C15: dropping the writer without finalize flushes the current page: still nothing for the XML-length field
+//@fn src/paged_writer.rs PagedWriter drop trait=Drop rename=drop_impl serves=C15
+//@sig
+        requires old(self).wf(),
+        ensures /*[C15]*/ old(self).quiet() ==> final(self).hist_clean(),
+//@fn_end
+        proof { if old(self).quiet() && self.quiet() { lemma_quiet_clean(*self); } }
 //@endfn
 
     // canary (vacuity guard): false postcondition on the real physical_position must fail
@@ -346,13 +527,41 @@ impl PagedWriter {
 //@endfn
 }
 
+/// the logical stream as a function of the state components it depends on (so that operations which leave them alone leave it alone)
+#[verifier::opaque]
+pub open spec fn stream_of(data: Seq<u8>, pos: int, offset: int, pb: Seq<u8>) -> Seq<u8> {
+    let p = pos / 1024;
+    let np = if data.len() as int / 1024 >= p + (if offset > 0 { 1int } else { 0int }) { data.len() as int / 1024 } else { p + 1 };
+    Seq::new((1020 * np) as nat, |i: int| if i / 1020 == p { pb[i % 1020] } else { data[1024 * (i / 1020) + i % 1020] })
+}
+#[verifier::opaque]
+pub open spec fn quiet_of(dirty: nat, data: Seq<u8>, pos: int, pb: Seq<u8>) -> bool {
+    &&& dirty == 0
+    &&& (forall|i: int| 32 <= i < 40 && i < data.len() ==> data[i] == 0u8)
+    &&& (pos == 0 ==> forall|i: int| 32 <= i < 40 ==> pb[i] == 0u8)
+}
+/// page arithmetic spelled out once (keeps div/mod reasoning out of the function bodies)
+pub proof fn lemma_aligned_step(pos: int, dl: int)
+    requires pos % 1024 == 0, dl % 1024 == 0, 0 <= pos <= dl
+    ensures (pos + 1024) % 1024 == 0, (dl + 1024) % 1024 == 0, pos < dl ==> pos + 1024 <= dl, (pos + 1024) / 1024 == pos / 1024 + 1
+{}
+/// a quiet writer has a clean history
+pub proof fn lemma_quiet_clean(w: PagedWriter)
+    requires w.quiet()
+    ensures w.hist_clean(), w.writer.dirty@ == 0
+{ reveal(quiet_of); }
+/// a suffix of a write that carries nothing for bytes 32..40 carries nothing either
+pub proof fn lemma_hdr_touch_suffix(c: int, buf: Seq<u8>, d: int)
+    requires 0 <= d <= buf.len(), !hdr_touch(c, buf)
+    ensures !hdr_touch(c + d, buf.subrange(d, buf.len() as int))
+{}
 /// C11 corollary: right after a successful flush, logical(device) is the logical stream
 proof fn theorem_flush_payload_is_stream(w: PagedWriter, d: Seq<u8>, s: Seq<u8>)
     requires d.len() == 1024 * w.npages(), s == w.stream(), w.npages() >= 0,
         forall|i: int| 0 <= i < 1020 * w.npages() ==> d[phys(i)] == #[trigger] s[i],
     ensures logical(d) =~= s
 {
-    reveal(PagedWriter::stream); reveal(phys);
+    reveal(stream_of); reveal(phys);
     assert(d.len() / 1024 == w.npages());
 }
 
@@ -405,7 +614,7 @@ pub proof fn lemma_appended_trans(a: PagedWriter, b: PagedWriter, c: PagedWriter
 pub proof fn lemma_appended_refl(a: PagedWriter)
     requires a.wf()
     ensures appended(a, a, Seq::<u8>::empty())
-{ reveal(app_seq); reveal(PagedWriter::stream); }
+{ reveal(app_seq); reveal(stream_of); }
 /// same stream content, cursor moved (physical_seek)
 pub open spec fn moved(o: PagedWriter, n: PagedWriter, c: int) -> bool { n.stream() == o.stream() && n.cursor() == c }
 /// overwrite of an already written prefix: x ++ y was written at c0; go back to c0, write x2 (|x2| == |x|), return to the end
